@@ -758,10 +758,14 @@ func (ex *Exec) writeElem(st *State, d ArrData, elem types.Type, idx *Term, v Va
 		n.Idx[idx.String()] = idx
 		n.Dirty = true
 		n.ElemInv = nil
+		refArrWrites++
+		n.Ver = refArrWrites // unique per write: two different writes never look like the same contents
 		return n
 	}
 	panic(abortf("writeElem: %T", d))
 }
+
+var refArrWrites int
 
 func isIntString(s string) bool {
 	if s == "" {
